@@ -51,7 +51,8 @@ def owns(prop, monitor, moves=False):
         return True
     if prop == "C12" and moves:
         # with moves in the history every memory-safety / upstream monitor speaks about C12
-        return monitor in ("M-move", "M-disjoint", "M-inside", "M-content", "M-freelist", "M-upstream", "M-leak")
+        # (a valid release through the new owner that gets reported as invalid is a C12 failure as well)
+        return monitor in ("M-move", "M-disjoint", "M-inside", "M-content", "M-freelist", "M-upstream", "M-leak", "M-noreport")
     return prop in MON_OWNERS.get(monitor, [])
 
 
@@ -448,7 +449,10 @@ def check_C04(prop, tier, only):
 
 def check_C05(prop, tier, only):
     c = cfgs_for(tier)
-    jobs = (arena_suite(tier, c, extra="--faults 1 --moves 2") + arena_suite(tier, c, extra="--faults 2")
+    aj = arena_suite(tier, c, extra="--faults 1 --moves 2") + arena_suite(tier, c, extra="--faults 2")
+    for j in aj:
+        j["own"] = ["M-noreport"]  # a correct block return that the source rejects as invalid is a block that is not given back
+    jobs = (aj
             + pool_suite(tier, c[:2], extra="--faults 1") + coll_suite(tier, c[:1], extra="--faults 1") + stack_suite(tier, c[:2], extra="--faults 1")
             + iter_suite(tier, c[:1], extra="--moves 2"))
     return run_explore_check(prop, tier, jobs, only, note=NOTE_BFS +
@@ -462,7 +466,7 @@ def check_C06(prop, tier, only):
     c = cfgs_for(tier)
     jobs = stack_suite(tier, c, extra="--tries 1") + stack_suite(tier, c[:1], extra="--moves 2")
     for j in jobs:
-        j["own"] = ["M-upstream"]  # "blocks freed by unwinding are kept for reuse until shrink_to_fit": block/cache accounting of the stack
+        j["own"] = ["M-upstream", "M-noreport"]  # a valid unwind that is reported as invalid did not restore the state; "blocks freed by unwinding are kept for reuse until shrink_to_fit": block/cache accounting of the stack
     return run_explore_check(prop, tier, jobs, only, note=NOTE_BFS +
                              "memory_stack with mark / unwind(j) for every valid nested j / shrink_to_fit / move; M-unwind: capacity restored, top()==marker, "
                              "markers totally ordered with consistent operators, unwind never touches the upstream, shrink_to_fit empties the cache, and a twin "
@@ -540,7 +544,7 @@ def check_C16(prop, tier, only):
 def check_C18(prop, tier, only):
     import grids
     jobs = check_C18_explore_jobs(tier)
-    return run_explore_check(prop, tier, jobs, only, enum_jobs=grids.jobs_minblock(tier), note=NOTE_BFS +
+    return run_explore_check(prop, tier, jobs, only, enum_jobs=grids.jobs_minblock(tier, strict_next=True), note=NOTE_BFS +
                              "M-counters: capacity_left / pool_capacity_left change by exactly the nodes or bytes an operation takes or returns, next_capacity equals the size of "
                              "the next upstream request, M-maxima: no request above max_node_size/max_array_size/max_alignment succeeds; plus the exhaustive "
                              "min_block_size grid (node size x node count x pool type; byte sizes for stacks)")
